@@ -13,6 +13,7 @@ import PnaVerif.Model.Cli.PartName
 import PnaVerif.Model.Cli.ModeText
 import PnaVerif.Model.Cli.Wire
 import PnaVerif.Model.Cli.ChunkList
+import PnaVerif.Model.Cli.Concat
 /-
   Line-protocol driver: one request per line on stdin, one canonical answer per line on stdout.
   Imports model files only (no Mathlib) so that it links as a native executable.
@@ -348,6 +349,14 @@ def handle (line : String) : String :=
     match ofHex h with
     | some b => let (its, o) := rawEntriesWith chunksSlice b
                 " ".intercalate (its.map Canon.rawItemS ++ [Canon.endS o])
+    | none => "bad-op"
+  | "concat" :: inputs =>
+    match inputs.mapM (fun inp => (inp.splitOn ",").mapM ofHex) with
+    | some ins =>
+      match Cli.concat ins with
+      | .ok out => "ok " ++ Canon.digest out
+      | .error _ => "err"
+      | .panic s => "panic " ++ s
     | none => "bad-op"
   | ["chunklist", h] => withHex h fun b =>
       match Cli.chunkList b with
